@@ -27,6 +27,7 @@ type lockOrder struct {
 	acq     map[*ssa.Function]map[string]bool // transitive acquire summary
 	edges   map[string]map[string]string      // A -> B -> witness
 	selfs   map[string]string                 // A -> witness of re-acquiring A while holding A
+	onces   map[string]bool                   // classes that are sync.Once fields
 	blocks  []string                          // blocking channel operations executed while a mutex may be held
 	blockCl [][]string                        // the mutex classes held at each of them
 	impls   map[string][]*ssa.Function        // iface method key -> implementations in the module
@@ -72,6 +73,30 @@ func lockOp(ins ssa.Instruction) (class string, acquire bool, deferred bool, ok 
 	}
 	class, ok = mutexClassOf(cc.Args[0])
 	return
+}
+
+// onceDo recognises once.Do(f): a sync.Once behaves like a lock held while f runs (a second caller waits for the
+// first to finish, a nested call from inside f never returns). Returns the class of the Once and the function f.
+func onceDo(ins ssa.Instruction) (class string, body *ssa.Function, ok bool) {
+	c, isCall := ins.(*ssa.Call)
+	if !isCall {
+		return
+	}
+	callee := c.Call.StaticCallee()
+	if callee == nil || callee.String() != "(*sync.Once).Do" || len(c.Call.Args) != 2 {
+		return
+	}
+	class, ok = mutexClassOf(c.Call.Args[0])
+	if !ok {
+		return
+	}
+	switch f := c.Call.Args[1].(type) {
+	case *ssa.MakeClosure:
+		body, _ = f.Fn.(*ssa.Function)
+	case *ssa.Function:
+		body = f
+	}
+	return class, body, true
 }
 
 func (lo *lockOrder) moduleFn(fn *ssa.Function) bool {
@@ -120,7 +145,7 @@ func (lo *lockOrder) targets(ins ssa.Instruction) []*ssa.Function {
 }
 
 func runLockOrder(w *World) *lockOrder {
-	lo := &lockOrder{w: w, acq: map[*ssa.Function]map[string]bool{}, edges: map[string]map[string]string{}, selfs: map[string]string{}, impls: map[string][]*ssa.Function{}, callees: map[*ssa.Function][]*ssa.Function{}}
+	lo := &lockOrder{w: w, acq: map[*ssa.Function]map[string]bool{}, edges: map[string]map[string]string{}, selfs: map[string]string{}, onces: map[string]bool{}, impls: map[string][]*ssa.Function{}, callees: map[*ssa.Function][]*ssa.Function{}}
 	seen := map[*ssa.Function]bool{}
 	var add func(fn *ssa.Function)
 	add = func(fn *ssa.Function) {
@@ -188,6 +213,14 @@ func runLockOrder(w *World) *lockOrder {
 				if c, a, d, ok := lockOp(ins); ok && a && !d {
 					lo.acq[fn][c] = true
 				}
+				if oc, body, ok := onceDo(ins); ok {
+					lo.onces[oc] = true
+					lo.acq[fn][oc] = true
+					if body != nil {
+						lo.callees[fn] = append(lo.callees[fn], body)
+					}
+					continue
+				}
 				if _, isGo := ins.(*ssa.Go); isGo {
 					continue
 				}
@@ -240,6 +273,22 @@ func runLockOrder(w *World) *lockOrder {
 						cur[c] = true
 					} else if !a && !d {
 						delete(cur, c)
+					}
+					continue
+				}
+				if oc, body, ok := onceDo(ins); ok {
+					if record {
+						for h := range cur {
+							lo.note(h, oc, fn, ins)
+						}
+						if body != nil {
+							for c := range lo.acq[body] {
+								lo.noteVia(oc, c, fn, ins, body)
+								for h := range cur {
+									lo.noteVia(h, c, fn, ins, body)
+								}
+							}
+						}
 					}
 					continue
 				}
@@ -329,6 +378,11 @@ func (lo *lockOrder) noteVia(held, acquired string, fn *ssa.Function, ins ssa.In
 
 func (lo *lockOrder) put(a, b, wit string) {
 	if a == b {
+		if lo.onces[a] {
+			// a call of once.Do from inside its own body is path-dependent (the close path is guarded by the closing
+			// mark): that case is a deductive obligation (ship: F1-no-reentry), not a syntactic one
+			return
+		}
 		if _, ok := lo.selfs[a]; !ok {
 			lo.selfs[a] = wit
 		}
